@@ -63,6 +63,15 @@ def run(res, tier, seed):
         b = (rnd.choice(["", "1 + ", "x = ", "2 * ", "1d1 + "]) + tok + rnd.choice(["", " + 1", " + 力量", " * 2"]) +
              rnd.choice(["", " )", " (1,", " ] tail", "\n[", " 体内 )"])).encode()
         cases.append((b, rnd.choice(pres[:2]), pegcases.ALL_ON, rnd.getrandbits(64), rnd.getrandbits(64), True))
+    # st lists whose values are parsed under other flags (no bitwise operators, no sides-less dice) than the look-ahead guards
+    # that examined them, followed by a tail that makes the whole look like a ternary / slice / comparison: the value stops at the
+    # `|` / `&` / `d`, everything behind it is RestInput, and what was parsed evaluates alone to the same effect
+    for i in range(n // 10):
+        nm = rnd.choice(["力量", "敏捷", "hp", "san", "属性"])
+        val = rnd.choice(["1|2", "60 敏捷3d", "*2=1|2", "7&3", "60|1", "3d", "=5|1", ":2d", "+=1|2", "-3d", "60 hp7&1"])
+        tail = rnd.choice([" ? 1 : 2", "?1:2", "[0:1]", " ? 1, 2 ? 3", " == 1", " && 1", " || 2", " > 0 ? 'a' : 'b'", "?1", " ? 1 :", ".x", "(1)"])
+        cases.append((("^st" + rnd.choice(["", " "]) + nm + val + tail).encode(), rnd.choice(pres[:2]), pegcases.ALL_ON if rnd.random() < 0.8 else [rnd.random() < 0.5 for _ in range(7)],
+                      rnd.getrandbits(64), rnd.getrandbits(64), False))
     rows = go_c03(cases)
     accepted = [(c, r) for c, r in zip(cases, rows) if r["full"]["out"]["ok"]]
     for c, r in zip(cases, rows):
